@@ -129,8 +129,8 @@ def judge_set(ctx, kind, prop, value, via):
                       expected=list(verdict[:1]), observed=observed[1])
         return
     if verdict[0] == M.ACCEPT and observed[0] == "refuse":
-        if via != "set_property" and prop == "item_delimiter" and verdict[1] in ('"',):
-            ctx.unjudged("item delimiter equal to the default quote/escape character (refused at completion)")
+        if via != "set_property" and prop == "item_delimiter" and verdict[1] in ('"', "\r", "\n"):
+            ctx.unjudged("item delimiter equal to the default quote/escape character or a line break (refused at completion)")
             return
         ctx.violation("C11:documented-spelling-refused:%s" % prop, case, "documented spelling was refused", expected=verdict, observed=observed[1])
     elif verdict[0] == M.REFUSE and observed[0] == "accept":
